@@ -231,6 +231,16 @@ OCT [0-7]
     }
 }
 
+<STRING_EMBEDDED>"%%" {
+  // Inside a nested string literal %% is a percent sign, and what
+  // follows it is not the start or the end of a splice.
+  yylval->f->str += '%';
+  if (yylval->f->in_string)
+    yylval->f->str += '%';
+  else
+    yyless (1);
+}
+
 <STRING_EMBEDDED>"\"" {
   yylval->f->in_string = ! yylval->f->in_string;
   yylval->f->str += '"';
